@@ -90,12 +90,33 @@ def fresh_text(pos):
     return "%s - 0 0 0 0 - -" % ser.pos_str(pos)
 
 
+class NodeUnreadable(Exception):
+    """reading a field of a node of the implementation's tree raised (e.g. a lazily built child
+    position whose move the rules refuse): an implementation surprise, reported as a finding"""
+
+    def __init__(self, path, parent_pos, move, exc):
+        self.path, self.parent_pos, self.move, self.exc = path, parent_pos, move, exc
+        Exception.__init__(self, "node %s (move [%s] from [%s]): reading its position raised %s: %s" % (
+            "/".join(map(str, path)) or "root", move, parent_pos, type(exc).__name__, str(exc)[:120]))
+
+
 def dump_tree(tree, ev_of):
     """text of an implementation tree; `ev_of(node)` gives the recorded answer (dict) or None"""
     out = []
 
-    def rec(node):
-        out.append(ser.pos_str(node.position))
+    def rec(node, path=(), parent=None):
+        try:
+            pos_text = ser.pos_str(node.position)
+        except NonFinite:
+            raise
+        except Exception as e:
+            mv = None
+            try:
+                mv = ser.move_str(node.move)
+            except Exception:
+                pass
+            raise NodeUnreadable(path, parent, mv, e)
+        out.append(pos_text)
         if node.move is None:
             out.append("-")
         else:
@@ -113,8 +134,8 @@ def dump_tree(tree, ev_of):
             out.append("-")
         else:
             out.append(str(len(node.children)))
-            for c in node.children:
-                rec(c)
+            for i, c in enumerate(node.children):
+                rec(c, path + (i,), pos_text)
 
     rec(tree)
     return " ".join(out)
@@ -445,6 +466,10 @@ def make_evaluator(case):
 
 # ------------------------------------------------------------------ recording
 
+class HarnessFault(Exception):
+    """the evaluator failed once (as a remote evaluator whose connection dropped would)"""
+
+
 class Recorder:
     """Wraps the evaluator, `torch.multinomial`, `torch.distributions.Dirichlet.sample` and
     `tak_ext.solve_policy` while active.  `sampler`: `torch` keeps the real multinomial draw;
@@ -462,10 +487,14 @@ class Recorder:
         self.solver_calls = []
         self.capture_solver = True
         self.seen_texts = None  # set() to collect the text of every position the evaluator is asked about
+        self.fault_at = None  # raise HarnessFault (once) instead of answering evaluation number fault_at
         self._patched = None
 
     # evaluator protocol
     def evaluate(self, pos):
+        if self.fault_at is not None and len(self.answers) >= self.fault_at:
+            self.fault_at = None
+            raise HarnessFault("scripted evaluator failure (network client error)")
         probs, value = self.inner.evaluate(pos)
         a = {"probs": tensor_list(probs), "value": float(value), "noise": None, "dtype": str(probs.dtype)}
         self.answers.append(a)
@@ -629,6 +658,75 @@ def endgame_positions(rng, size, per_class, back=(1, 1, 2, 3)):
     return out
 
 
+def tactical_positions(rng, size, count):
+    """constructed live positions built around the rarely reached rules: the mover's capstone on top
+    of a stack of two or more with a wall one or two squares away and room beyond (flattening only
+    by the lone capstone on the final drop); stacks TALLER than the board (height up to 2*size:
+    the carry limit is not the stack height); the mover out of flats but holding a capstone, or out
+    of capstones; walls and capstones of both colours as neighbours.  Returns [(label, position)]."""
+    import tak
+    from tak import pieces
+
+    W, B = pieces.Color.WHITE, pieces.Color.BLACK
+    F, S, C = pieces.Kind.FLAT, pieces.Kind.STANDING, pieces.Kind.CAPSTONE
+    P = pieces.Piece.cached
+    out = []
+    tries = 0
+    while len(out) < count and tries < 40 * count:
+        tries += 1
+        ply = rng.choice([4, 5, 6, 7, 10, 11, 30, 31])
+        me = W if ply % 2 == 0 else B
+        other = B if me == W else W
+        board = [[] for _ in range(size * size)]
+        theme = rng.choice(["cap-stack-wall", "cap-stack-wall", "tall-stack", "tall-stack", "no-flats", "mixed"])
+
+        def put(x, y, st):
+            if 0 <= x < size and 0 <= y < size:
+                board[x + y * size] = st
+
+        def body(h):
+            return [P(rng.choice([me, other]), F) for _ in range(h)]
+
+        x, y = rng.randrange(size), rng.randrange(size)
+        dx, dy = rng.choice([(1, 0), (-1, 0), (0, 1), (0, -1)])
+        if theme == "cap-stack-wall":
+            h = rng.choice([1, 2, 2, 3, size, size + 1])
+            put(x, y, [P(me, C)] + body(h))
+            d = rng.choice([1, 2, 2, 3])
+            for k in range(1, d):
+                if rng.random() < 0.5:
+                    put(x + k * dx, y + k * dy, [P(rng.choice([me, other]), F)] + body(rng.choice([0, 0, 1, 2])))
+            put(x + d * dx, y + d * dy, [P(rng.choice([me, other]), S)] + body(rng.choice([0, 0, 1, 3])))
+            if rng.random() < 0.5:
+                put(x + (d + 1) * dx, y + (d + 1) * dy, [P(rng.choice([me, other]), rng.choice([F, S, C]))])
+        elif theme == "tall-stack":
+            h = rng.choice([size, size + 1, size + 2, 2 * size])
+            put(x, y, [P(me, rng.choice([F, F, S, C]))] + body(h - 1))
+            if rng.random() < 0.6:
+                put(x + dx, y + dy, [P(rng.choice([me, other]), rng.choice([F, S, C]))])
+        else:
+            put(x, y, [P(me, rng.choice([F, S, C]))] + body(rng.choice([0, 1, 2, size])))
+        # neighbours and noise
+        for _ in range(rng.choice([1, 2, 4, size])):
+            i = rng.randrange(size * size)
+            if not board[i]:
+                board[i] = [P(rng.choice([me, other]), rng.choice([F, F, F, S, C]))] + body(rng.choice([0, 0, 0, 1, 2]))
+        if theme == "no-flats":
+            mine = tak.StoneCounts(0, rng.choice([1, 1, 2]))
+        else:
+            mine = tak.StoneCounts(rng.choice([1, 3, 10, 20]), rng.choice([0, 0, 1, 2]))
+        theirs = tak.StoneCounts(rng.choice([1, 3, 10, 20]), rng.choice([0, 1]))
+        stones = (mine, theirs) if me == W else (theirs, mine)
+        pos = tak.Position(size=size, stones=stones, ply=ply, board=board)
+        try:
+            if pos.winner()[1] is not None or not legal_ids(pos):
+                continue
+        except Exception:
+            continue
+        out.append(("tactical:" + theme, pos))
+    return out
+
+
 def replay_history(cfg, moves):
     """the position after `moves` from the start of a game with configuration cfg, or None if some
     move is refused / the game ends on the way"""
@@ -705,6 +803,8 @@ def run_case(case, hold_root=False, shared=None):
     res.error = None
     res.partial = None
     res.nonfinite = False
+    res.unreadable = None
+    res.faulted = False
     res.phases = []
     if shared is not None and "engine" in shared:
         rec, engine = shared["rec"], shared["engine"]
@@ -759,13 +859,30 @@ def run_case(case, hold_root=False, shared=None):
                 root_path = ci
                 n = int(tree.simulations) + n
             try:
-                start = fresh_text(pos) if tree is None else dump_tree(tree, rec.ev_of)
+                try:
+                    start = fresh_text(pos) if tree is None else dump_tree(tree, rec.ev_of)
+                except NodeUnreadable as e:
+                    res.error = "unreadable tree: %s" % (e,)
+                    res.unreadable = {"path": list(e.path), "parent": e.parent_pos, "move": e.move, "exc": type(e.exc).__name__}
+                    break
             except NonFinite as e:
                 res.error = "NonFinite statistic in tree: %s" % (e,)
                 break
             prev_sims = 0 if tree is None else int(tree.simulations)
+            faulted = False
             try:
-                if tree is None and hold_root:
+                if tree is None and case.get("fault_at") is not None:
+                    # the evaluator fails once in the middle of the search; the caller keeps the tree
+                    # and asks again: the search carries on from consistent statistics
+                    held = mcts.Node(position=pos, move=None)
+                    rec.fault_at = len(rec.answers) + int(case["fault_at"])
+                    try:
+                        tree = engine.analyze_tree(held)
+                    except HarnessFault:
+                        faulted = True
+                        tree = engine.analyze_tree(held)
+                    rec.fault_at = None
+                elif tree is None and hold_root:
                     held = mcts.Node(position=pos, move=None)
                     tree = engine.analyze_tree(held)
                 elif tree is None:
@@ -792,6 +909,10 @@ def run_case(case, hold_root=False, shared=None):
             except NonFinite as e:
                 res.error = "NonFinite statistic in tree: %s" % (e,)
                 break
+            except NodeUnreadable as e:
+                res.error = "unreadable tree: %s" % (e,)
+                res.unreadable = {"path": list(e.path), "parent": e.parent_pos, "move": e.move, "exc": type(e.exc).__name__}
+                break
             res.phases.append(
                 {
                     "how": how,
@@ -802,12 +923,17 @@ def run_case(case, hold_root=False, shared=None):
                     "choices": rec.choices[c0:],
                     "answers": rec.answers[a0:],
                     "dump": dump,
+                    # the descent choices of the aborted simulation were recorded but never played
+                    # out: such a phase is judged by TreeInv and the formula only, not replayed
+                    "no_replay": faulted,
                 }
             )
+            if faulted:
+                res.faulted = True
     res.tree = tree
     res.pos_after = ser.pos_str(pos)
     res.solver_calls = rec.solver_calls
-    if res.error is not None and res.partial is None and not hold_root:
+    if res.error is not None and res.partial is None and not hold_root and res.unreadable is None:
         again = run_case(case, hold_root=True)
         if again.error is not None:
             res.partial = again.partial
